@@ -9,7 +9,7 @@ from scipy.fftpack import dst as scipy_dst
 RULE = ("Domains built from dr or from dk (lengths 1-64 quick / 1-300 thorough incl. primes and 2^m +- 1, spacings log-uniform 1e-3..10) followed by random "
         "histories of dr/dk/length assignments (<= 8 quick / <= 30 thorough); after EVERY assignment length, dr, dk, len(r), len(k), r, k and the coefficient arrays are "
         "compared with the Lean model and with a freshly constructed Domain(length, dr); to_fourier/to_real of random / spiky / smooth arrays are compared with the "
-        "model's direct DST sums (and the sums with scipy.fftpack.dst), round trips both ways, linearity; MatrixArray versions for rank 1-4 with every space flag and memory layout (C, Fortran, transposed pair-table view, sub-block view) "
+        "model's direct DST sums (and the sums with scipy.fftpack.dst), round trips both ways, linearity; MatrixArray versions for rank 1-4 with every space flag and memory layout (C, Fortran, transposed pair-table view, sub-block view) and type-label lists (default, permuted, renamed - several arrays of one rank in one process) "
         "(pairwise identical transform, symmetry, flag flip, ValueError iff already in the target space, round trip). Non-trivial = history with >= 1 setter or a "
         "non-power-of-two length; distinct = distinct case")
 EXTRA_TRUSTED = ["scipy.fftpack.dst(type=2/3) modelled by SciPy's documented direct sums; validated against SciPy on every run (suite dst); FFT rounding vs direct sum: rtol 1e-9*max|out|"]
@@ -146,7 +146,8 @@ def suite_ma(ctx, case):
         elif lay == 'sub':
             big = np.zeros((L, n + 1, n + 1)); big[:, :n, :n] = data; arr = big[:, :n, :n]  # sub-block view of a larger array
         else: arr = data.copy()
-        m = MatrixArray(length=L, rank=n, data=arr, space=SP[case['sp']])
+        tys = case.get('types')
+        m = MatrixArray(length=L, rank=n, data=arr, space=SP[case['sp']], types=None if tys is None else list(tys))
         before = m.data.copy(); sp0 = case['sp']
         seq = []
         for step, way in enumerate(dirn):
@@ -243,5 +244,7 @@ def generate(ctx):
         case['rank'] = rng.randint(1, 4); case['sp'] = rng.choice(['R', 'R', 'F', 'F', 'N']); case['aseed'] = rng.randrange(10 ** 6)
         case['dirs'] = [rng.choice(['F', 'R', 'FR', 'RF', 'FF', 'RR', 'FRF', 'RFR'])]
         case['layout'] = rng.choice(['C', 'C', 'F', 'T', 'sub'])
+        # type labels: default letters, a permutation of them, or other names (several arrays of one rank with different labels in one process)
+        case['types'] = rng.choice([None, None, rng.sample(['A', 'B', 'C', 'D'][:case['rank']], case['rank']), ['poly', 'B', 'solvent', 'D4'][:case['rank']]])
         ctx.case('ma', case, True, tags=['rank:%d' % case['rank'], 'sp:' + case['sp'], 'dirs:' + case['dirs'][0], 'layout:' + case['layout']])
         suite_ma(ctx, case)
